@@ -131,7 +131,7 @@ func TestC07(t *testing.T) {
 		}
 	}
 	// out-of-range / malformed IPv4 must be refused, never wrapped
-	for _, ip := range []string{"256.1.1.1", "300.1.1.1", "1.2.3.256", "1.2.3.999", "1.2.3.4.5", "1.2.3", "1.2.3.-4", "1.2.3.65536", "511.511.511.511", "a.b.c.d"} {
+	for _, ip := range []string{"256.1.1.1", "300.1.1.1", "1.2.3.256", "1.2.3.999", "1.2.3.4.5", "1.2.3", "1.2.3.-4", "1.2.3.65536", "511.511.511.511", "a.b.c.d", "::1", "2001:db8::1", "::ffff:1.2.3.4", "1.2.3.4:80"} {
 		i++
 		if !r.Mine(i) {
 			continue
